@@ -29,7 +29,8 @@ TRUSTED = ["modelled: ReadOnlyStore (LiquerModel/StoreProxy.lean readOnlyOps), F
 ASSUMPTIONS = ["no symbolic links inside the store directory", "the store root is an absolute, already resolved directory path"]
 EXPLANATION = ("ro_refuses / ro_reads for any underlying store model and whole histories; generated obligation: every mutator of MemoryStore/FileStore is "
                "refused by ReadOnlyStore; keyOK -> path within root, metaKeyOK -> metadata path within root, for every root and key; not keyOK -> every "
-               "FileStore operation raises KeyNotSupported")
+               "FileStore operation raises KeyNotSupported; state level: after any history on a store whose root exists no path outside the root "
+               "has changed (contained_state)")
 
 OBS = [""] + L.UNIVERSE
 COMPS = ["a", ".", "..", "", "__metadata__", "b.txt"]
@@ -494,7 +495,11 @@ def run_boundary(ctx, procs):
         ctx.count("key classes", cls)
         for _ in range(len(OPS) * 2 + 2):
             ctx.case(("b:" + k) if cls != "plain" else None)
-    # oracle
+    # oracle (the most telling escapes first: data read or written outside, '..' keys, direct route)
+    rank = lambda b: (0 if (b[3].startswith("returned") or b[3].startswith("changed")) else 1,
+                      ["dotdot", "absolute", "root"].index(key_class(b[1])) if key_class(b[1]) in ("dotdot", "absolute", "root") else 3,
+                      ["direct", "mount", "query"].index(b[0]), len(b[1]))
+    bad.sort(key=rank)
     seen = set()
     for route, key, op, text in bad:
         vk = "escape:%s:%s:%s" % (route, op, key_class(key))
